@@ -56,8 +56,8 @@ func (e *Engine) verifIntrinsic(fn *ssa.Function, args []Value) (Value, bool) {
 		}
 		t := e.freshVar("f_"+e.concreteStr(args[0]), sort)
 		// values obtainable by decoding JSON: finite
-		e.solver.Assert(tNot(&Term{"(fp.isNaN " + t.S + ")", "Bool"}))
-		e.solver.Assert(tNot(&Term{"(fp.isInfinite " + t.S + ")", "Bool"}))
+		e.solver.Assert(tNot(mkTerm("(fp.isNaN "+t.S+")", "Bool")))
+		e.solver.Assert(tNot(mkTerm("(fp.isInfinite "+t.S+")", "Bool")))
 		e.draws = append(e.draws, &Draw{Kind: "float", Name: e.concreteStr(args[0]), Var: t.S, Bits: bits})
 		return t, true
 	case "Str":
@@ -88,7 +88,7 @@ func (e *Engine) verifIntrinsic(fn *ssa.Function, args []Value) (Value, bool) {
 		return t, true
 	case "Assume":
 		if !e.assume(args[0]) {
-			e.sh.count("paths_assume_false", 1)
+			e.count("paths_assume_false", 1)
 			panic(pathEnd{})
 		}
 		return nil, true
@@ -126,6 +126,28 @@ func (e *Engine) verifIntrinsic(fn *ssa.Function, args []Value) (Value, bool) {
 	case "SymOrder":
 		e.symOrder = args[0].(bool)
 		return nil, true
+	case "And":
+		return boolVal(tAnd(asBoolTerm(args[0]), asBoolTerm(args[1]))), true
+	case "Or":
+		return boolVal(tOr(asBoolTerm(args[0]), asBoolTerm(args[1]))), true
+	case "Implies":
+		return boolVal(tOr(tNot(asBoolTerm(args[0])), asBoolTerm(args[1]))), true
+	case "IteStr":
+		c := asBoolTerm(args[0])
+		if c == tTrue {
+			return args[1], true
+		}
+		if c == tFalse {
+			return args[2], true
+		}
+		u := &UStr{}
+		for _, a := range asUStr(args[1]).Alts {
+			u.Alts = append(u.Alts, UAlt{tAnd(c, a.G), a.S})
+		}
+		for _, a := range asUStr(args[2]).Alts {
+			u.Alts = append(u.Alts, UAlt{tAnd(tNot(c), a.G), a.S})
+		}
+		return normUStr(u), true
 	case "Symbolic":
 		return true, true
 	case "Fatal":
@@ -151,13 +173,19 @@ func (e *Engine) assume(c Value) bool {
 		return b
 	case *Term:
 		if e.replaying() { // assumption already known feasible on the parent path
-			e.solver.Assert(b)
+			e.assertPC(b)
 			return true
+		}
+		switch e.evalKB(b) {
+		case 1:
+			return true
+		case 0:
+			return false
 		}
 		if e.solver.CheckWith(b) == "unsat" {
 			return false
 		}
-		e.solver.Assert(b)
+		e.assertPC(b)
 		return true
 	}
 	panic(abort{"assume on non-bool"})
@@ -206,7 +234,7 @@ func (e *Engine) report(kind, msg string, neg *Term) {
 		if r == "sat" {
 			e.sh.recordEvent(e, kind, msg, fn, stack, excuse)
 		} else if r == "unknown" {
-			e.sh.count("assertion_queries_unknown", 1)
+			e.count("assertion_queries_unknown", 1)
 		}
 		e.solver.Pop()
 	}
@@ -231,7 +259,7 @@ func (e *Engine) assert(c Value, msg string) {
 		if neg == tTrue {
 			panic(pathEnd{})
 		}
-		e.solver.Assert(tNot(neg))
+		e.assertPC(tNot(neg))
 		return
 	}
 	e.sh.assertHit(e.entryName, msg, neg != tFalse && neg != tTrue)
@@ -246,7 +274,7 @@ func (e *Engine) assert(c Value, msg string) {
 	if neg == tTrue {
 		panic(pathEnd{})
 	}
-	e.solver.Assert(tNot(neg)) // continue under the assumption that the assertion held
+	e.assertPC(tNot(neg)) // continue under the assumption that the assertion held
 }
 
 // blameFunc: innermost function of the code under test on the stack (not harness code).
